@@ -57,3 +57,21 @@ Proof.
     pose proof (accepted_is_cut_fp P avg mn mx s L' HP Ha Hs Hl) as E. cbv zeta in E. fold p in E.
     rewrite <- E. apply B4; assumption.
 Qed.
+
+(* the converse direction of the open finding: the most recent 64 bytes have a fingerprint with
+   zero low bits at L = min, but the code does not cut there (its window lacks s[min-1]) *)
+Lemma last64_zero_not_cut_lemma :
+  exists p s L,
+    rabin_accepts (c_avg p) (c_min p) (c_max p) = true /\ poly_accepts (c_poly p) = true /\
+    Forall isbyte s /\ c_min p <= L /\ L < c_max p /\ L < nlen s /\
+    N.land (fp_direct (c_poly p) (ntake 64 (ndrop (L - 64) s))) (c_avg p - 1) = 0 /\
+    is_cut (tab_of p) p s L = false /\ L < N.of_nat (first_len (tab_of p) p s).
+Proof.
+  exists prefill_witness_params, (repeat 0 4094 ++ [16; 0] ++ [1; 2; 3])%list, 4096.
+  split; [vm_compute; reflexivity|]. split; [vm_compute; reflexivity|]. split.
+  { apply Forall_app. split.
+    - apply Forall_forall. intros x Hx. apply repeat_spec in Hx. subst. unfold isbyte. lia.
+    - repeat constructor. }
+  split; [vm_compute; discriminate|]. split; [vm_compute; reflexivity|]. split; [vm_compute; reflexivity|].
+  split; [vm_compute; reflexivity|]. split; [vm_compute; reflexivity|]. vm_compute. reflexivity.
+Qed.
